@@ -313,3 +313,21 @@ for level in ("Vector", "Matrix"):
                    "destructive": False, "self.envelope is not None and (not separate_measurement)": False},
         "ignore_calls": ("self._set_measured", "self.envelope"), "havoc_calls": (), "checkpoint_calls": (),
         "expect_label_draw": {"p": p, "a": ("range", "Me")}, "min_sites": 1, "properties": ["C04"]})
+
+
+# ---- ProductState.trace_out, vector level: kept members to the front in the requested order, then reduced_state(amplitudes)
+def _ctx_to_vec():
+    return Ctx({"Mem": ("R", "T"), "Tg": ("T",), "Rst": ("R",)}, rest={("Mem", "Tg"): "Rst"})
+
+
+SPECS.append({
+    "function": f"{COMP}::ProductState.trace_out", "case": "Vector", "level": "Vector", "ctx": _ctx_to_vec, "env": lambda ctx: {"states": AList("Tg")}, "fields": _fields,
+    "decide": {}, "ignore_calls": (), "havoc_calls": (), "checkpoint_calls": (),
+    "expect_return": con([("psi", False, (gv(T="a", R="r"),)), ("psi", True, (gv(T="c", R="r"),))], [gv(T="a"), gv(T="c")]), "expect_return_layout": ("Tg", "Tg"),
+    "expect_members": "Mem", "min_sites": 4, "properties": ["C02"]})
+SPECS.append({
+    "function": f"{COMP}::reduced_state", "case": "mixed-branch", "level": "Matrix", "ctx": lambda: Ctx({"Ka": ("a",), "Tr": ("b",)}), "is_method": False,
+    "env": lambda ctx: {"amplitudes": base_tensor("A", ["Ka", "Tr"], ctx)}, "fields": lambda ctx, level: {},
+    "decide": {"jnp.abs(purity - 1) < tol": False}, "ignore_calls": (), "havoc_calls": (), "checkpoint_calls": (),
+    "expect_return": con([("A", False, (gv(a="i"), gv(b="k"))), ("A", True, (gv(a="j"), gv(b="k")))], [gv(a="i"), gv(a="j")]), "expect_return_layout": ("Ka", "Ka"),
+    "min_sites": 0, "properties": ["C02"]})
